@@ -231,6 +231,55 @@ def installLoop (T : TableSrc) : List OpMethod → List (Name × Dunder) → Opt
 
 def install (T : TableSrc) : Option (List (Name × Dunder)) := installLoop T (initializeOps T) []
 
+/-! ### any user of the metaclass: `__operators__` / `__without__` queries, missing builders -/
+
+/-- `repr(op)` : `"<{} operator method ('{}' symbol)>".format(self.name, self.symbol)` -/
+def OpMethod.reprStr (o : OpMethod) : Name :=
+  n!"<" ++ o.name ++ n!" operator method ('" ++ o.symbol ++ n!"' symbol)>"
+
+/-- the string keys under which `_insert` files the entry in `OpMethod._all`
+    (`["all", symbol, name, dname, func, arity, str(arity)]`, plus `"r"` for reversed ones) -/
+def OpMethod.keys (o : OpMethod) : List Name :=
+  [n!"all", o.symbol, o.name, o.dname, [Char.ofNat (48 + o.arity)]] ++ (if o.rev then [n!"r"] else [])
+
+/-- `cls._all[key]` (insertion order); `none` = KeyError -/
+def allLookup (ops : List OpMethod) (key : Name) : Option (List OpMethod) :=
+  match ops.filter (fun o => o.keys.contains key) with
+  | [] => none
+  | l => some l
+
+/-- `OpMethod.get(key, without)` for lists of string queries: every match of every key, in the order asked
+    for, minus the entries matched by `without`; `none` = ValueError (unknown operator / "div") -/
+def getOps (ops : List OpMethod) (keys without : List Name) : Option (List OpMethod) := do
+  let ign ← without.mapM (allLookup ops)
+  let sel ← keys.mapM (allLookup ops)
+  pure (sel.flatten.filter fun o => !(ign.flatten.contains o))
+
+inductive InstallErr where
+  | valueError                 -- unknown operator in `__operators__` / `__without__`
+  | keyError                   -- no entry `(rev, arity)` in the builder dict
+  | noBuilder (dname : Name)   -- "Class '…' has no builder/template for operator method '…'" (TypeError)
+  deriving DecidableEq, Repr
+
+/-- The loop of `__new__` for a metaclass that overrides the builders `hv` only (the abstract ones
+    return NotImplemented, which is not callable) and a class body binding the names `ns`. -/
+def installLoopW (T : TableSrc) (hv : Builder → Bool) (ns : List Name) :
+    List OpMethod → List (Name × Dunder) → Except InstallErr (List (Name × Dunder))
+  | [], acc => .ok acc
+  | op :: ops, acc =>
+    if ns.contains op.dname then installLoopW T hv ns ops acc
+    else
+      match (T.dispatch.lookup (op.rev, op.arity)).bind builderOfName with
+      | none => .error .keyError
+      | some b =>
+        if hv b then installLoopW T hv ns ops (assocSet op.dname ⟨op.dname, b, op.func⟩ acc)
+        else .error (.noBuilder op.dname)
+
+def installW (T : TableSrc) (hv : Builder → Bool) (ns keys without : List Name) : Except InstallErr (List (Name × Dunder)) :=
+  match getOps (initializeOps T) keys without with
+  | none => .error .valueError
+  | some ops => installLoopW T hv ns ops []
+
 /-! ## The Stream class -/
 
 /-- Python values that occur as operands. -/
